@@ -591,9 +591,13 @@ static void single_menu(const Cfg &c, int f, const Ref &ref, Proto &P, int level
 					for (int x = 0; x < c.n && cnt < sz; x++) if (x != f) low |= 1u << x, cnt++;
 					if (mask != low) continue;
 				}
-				for (int variant = 0; variant < 3; variant++)
+				for (int variant = 0; variant < 4; variant++)
 				{
 					if (variant == 1 && sz < 2) continue;      // with one complaint "a strict subset" is "none"
+					// variant 3: every complaint is answered correctly (the dealer stays qualified, every victim has to adopt the
+					// published share); with one victim this is deviation W (added after seeded change C15-4: several complaints
+					// against one dealer, the complainers are not the lowest parties)
+					if (variant == 3 && sz < 2) continue;
 					for (int flavour = 1; flavour <= 2; flavour++)
 						if (flavour == 1 || level >= 2) out.push_back(Dev::mk('U', (int)mask, variant + 10 * k + 100 * flavour));
 				}
